@@ -27,12 +27,19 @@ def handle (what : String) (shape : List Nat) : Option String :=
       [rev shape a c 0, rev shape a c 1])))
   | "interior" => some (sep (axes.map fun a => showNats (interiorFaces shape a)))
   | "exterior" => some (sep (axes.map fun a => showNats (exteriorFaces shape a)))
+  | "cellindex" => some (showNats ((boxF shape).map (encF shape)))
+  | "faceindex" => some (sep (axes.map fun a => showNats ((boxF (fshape shape a)).map (faceNum shape a))))
+  | "facesshape" => some (sep (axes.map fun a => showNats (fshape shape a)))
   | "cci" => some (showNats ((List.range (numFaces shape)).flatMap fun f =>
       Gen.cornerIdx dim (faceAxis shape f) 0 ++ Gen.cornerIdx dim (faceAxis shape f) 1))
   | "corners" => some (sep ((Gen.cellCorners dim).map showNats))
   | _ => none
 
 def dispatch : List String → Option String
+  | "guard" :: rest => do
+    -- which constructor calls are accepted: shape, per-axis voxel sizes
+    let ((shape, h), _) ← (do let s ← P.list P.nat; let h ← P.list P.rat; pure (s, h)).run rest
+    pure (match gridGuard shape h with | .ok _ => "ok" | .error e => e.show)
   | what :: rest => do
     let (shape, _) ← (P.list P.nat).run rest
     handle what shape
